@@ -31,7 +31,8 @@ ASSUMPTIONS = ['a slash mark and both atoms next to it stay in one fragment (con
 MECHANISMS = [('cgsmiles.pysmiles_utils', 'annotate_ez_isomers_cgsmiles'), ('cgsmiles.graph_utils', 'sort_nodes_by_attr'),
               ('cgsmiles.read_fragments', 'strip_bonding_descriptors'), ('cgsmiles.graph_utils', 'merge_graphs')]
 FINDING_FEATURES = {'stereo.cut_double_bond_needs_canonical_written_order': ('cut_db_later_fragment_writes_substituent_first', 'db_cut_under_reordered_insertion'),
-                    'stereo.shared_marked_substituent_class_depends_on_listing': 'marked_substituent_shared_between_fragments'}
+                    'stereo.shared_marked_substituent_class_depends_on_listing': 'marked_substituent_shared_between_fragments',
+                    'stereo.cut_marked_substituent_of_first_atom_depends_on_listing': 'cut_substituent_of_the_first_written_double_bond_atom'}
 SIZES = {'quick': 2500, 'thorough': 60000}
 
 
@@ -442,6 +443,17 @@ def run_marked(case):
                 if frozenset((a1, a2)) not in have and k == 0:
                     viol.append(V('c15.marked_cut_relation_lost', f'{txt}: the double bond between generator atoms {a1} and {a2} has a slash mark next to both '
                                   f'substituents, but the resolved molecule stores no cis/trans relation for it'))
+        # the same fragments LISTED in another order (other coarse keys, as in another spelling of the base string)
+        keys_ = sorted(base.nodes)
+        perm_ = dict(zip(keys_, random.Random(len(txt) + 11).sample(keys_, len(keys_))))
+        b3 = nx.Graph()
+        for n_ in sorted(keys_, key=lambda x: perm_[x]):
+            b3.add_node(perm_[n_], **base.nodes[n_])
+        b3.add_edges_from((perm_[a], perm_[b], dict(d)) for a, b, d in base.edges(data=True))
+        cg3, aa3 = MoleculeResolver.from_graph(case['frag_string'], b3).resolve()
+        if sig(aa3) != res[0]:
+            viol.append(V('c15.listing_order_dependent', f'{txt}: stereo annotations differ when the base graph lists the same fragments in another order (keys {perm_}): '
+                          f'{sorted(res[0], key=str)} vs {sorted(sig(aa3), key=str)}'))
         if any(r != res[0] for r in res[1:]):
             viol.append(V('c15.insertion_order_dependent', f'{txt}: stereo annotations differ when the same base graph (same keys) lists its nodes in another order: {[sorted(r, key=str) for r in res]}'))
     except ValueError:
